@@ -2,9 +2,15 @@
 main.execute and every <target>/main.py:execute)."""
 from __future__ import annotations
 
+import concurrent.futures
+import itertools
+import random
+import re
 import shutil
 
 from harness import lib
+from harness.gen import metamodel as mmg
+from harness.gen import report as repgen
 from harness.lib import coq_list, coq_option, coq_pair, coq_text
 
 META = {
@@ -43,7 +49,11 @@ TRUSTED = [
 RULE = ("report stream: (headline, errors) with multi-line / blank-leading / astral / CRLF / "
         "VT / LS texts, precondition violations included; nested errors up to depth 3; "
         "non-trivial = at least one error with two or more lines; CLI stream: valid and "
-        "invalid meta-models x targets x entry points")
+        "invalid meta-models x targets x entry points, and for every target a generated model "
+        "with implementation-specific items run with all / all but one / all but another / all "
+        "but both snippets; accumulation stream: a generated model x all pairs (and some "
+        "triples) of 18 rule violations injected into independent declarations, single and "
+        "combined, through the real front end")
 
 HEADER = """From Coq Require Import List NArith ZArith Bool.
 From Acg Require Import Base.Str Base.Outcome Model.Report Gen.GenPyWhitespace.
@@ -88,12 +98,14 @@ def coq_error(e):
     return f"(MkError [] {coq_text(e[0])} {coq_list(coq_error(u) for u in und)})"
 
 
-def layout_fails(stderr: str):
+def layout_fails(stderr: str, cli: bool = False):
     """The report layout of the property: one-line headline ending in ':' followed by
     '* '-bulleted, indented entries — or a single line."""
     lines = stderr.split("\n")
     if stderr.endswith("\n"):
         lines = lines[:-1]
+    if cli and len(lines) == 1 and lines[0].endswith(":"):
+        return "report-without-entries"
     if len(lines) <= 1:
         return None
     if not lines[0].endswith(":"):
@@ -105,6 +117,212 @@ def layout_fails(stderr: str):
         if not (ln.startswith("* ") or ln.startswith("  ") or ln.strip() == ""):
             return "entry-line-not-indented"
     return None
+
+
+
+AT_RE = re.compile(r"^At line -?\d+ and column -?\d+: ")
+TARGETS = ["csharp", "cpp", "golang", "java", "jsonschema", "python", "typescript", "xsd"]
+# Declared dependency of the front end (intermediate._verify): the check "constructor
+# arguments and properties match" runs only if every property is initialised in its
+# constructor; pairs of these two kinds of rules are not expected to be reported together.
+GATING_RE = re.compile(r"is not properly initialized in the constructor")
+GATED_RE = re.compile(r"^(The properties and constructor arguments do not coincide|The order of constructor "
+                      r"arguments and properties|The constructor argument .* mismatch in type|No constructor "
+                      r"has been specified)")
+
+
+def report_lines(stderr):
+    """(headline, set of entry lines without bullets, indentation and location prefix,
+    number of bullets)."""
+    if not stderr:
+        return None, set(), 0
+    lines = stderr.split("\n")
+    head = lines[0]
+    body = set()
+    bullets = 0
+    for ln in lines[1:]:
+        if ln.startswith("* "):
+            bullets += 1
+            ln = ln[2:]
+        ln = AT_RE.sub("", ln.strip())
+        if ln:
+            body.add(ln)
+    return head, body, bullets
+
+
+def generator_failure_cases(ctx, base):
+    """For every target: a model with implementation-specific classes / methods /
+    verification functions and the synthesised snippets (must succeed), then the same
+    with one, another one, and both snippets missing. -> (cases, groups)"""
+    rng = random.Random(ctx.rng.random())
+    mm = None
+    for _ in range(200):
+        cand = mmg.random_metamodel(random.Random(rng.random()), "small")
+        cl, me, fn = mmg._impl_specific(cand)
+        if me or fn:
+            mm = cand
+            break
+    if mm is None:
+        raise lib.HarnessError("no meta-model with implementation-specific items generated")
+    # second model: additionally a concrete leaf class marked implementation-specific (the
+    # random generator never does that; several generators cannot cope with it, so it is
+    # used for the schema targets and Python only and skipped where the full run fails)
+    mm_b = mmg.loads(mmg.dumps(mm))
+    with_kids = {b for c in mm_b.classes for b in c.bases}
+    leaves = [c for c in mm_b.classes if c.name not in with_kids]
+    if leaves:
+        rng.choice(leaves).is_implementation_specific = True
+    plan = [(mm, "a", TARGETS), (mm_b, "b", ["jsonschema", "xsd", "python"])]
+    cases, groups = [], []
+    for model, tag, targets in plan:
+        mp = base / f"gen_model_{tag}.py"
+        mp.write_text(mmg.render_source(model), encoding="utf-8")
+        _generator_groups(rng, base, model, mp, tag, targets, cases, groups)
+    return cases, groups
+
+
+def _generator_groups(rng, base, mm, mp, tag, targets, cases, groups):
+    for target in targets:
+        snippets = mmg.synth_snippets(mm, target)
+        keys = sorted(snippets)
+        specific = [k for k in keys if "/" in k or k[:1].isupper()] or keys
+        k1 = rng.choice(specific)
+        same_dir = [k for k in specific if k != k1 and "/" in k and k.rsplit("/", 1)[0] == k1.rsplit("/", 1)[0]]
+        rest = same_dir or [k for k in specific if k != k1] or [k for k in keys if k != k1]
+        k2 = rng.choice(rest) if rest else None
+        variants = [("full", set()), ("minus1", {k1})]
+        if k2 is not None:
+            variants += [("minus2", {k2}), ("minus12", {k1, k2})]
+        group = {"target": target, "removed": [k1, k2], "idx": {},
+                 "same_kind": bool(k2) and "/" in k1 and "/" in k2
+                 and k1.rsplit("/", 1)[0] == k2.rsplit("/", 1)[0]}
+        for vname, removed in variants:
+            sd = base / f"snip-{tag}-{target}-{vname}"
+            for k, v in snippets.items():
+                if k in removed:
+                    continue
+                (sd / k).parent.mkdir(parents=True, exist_ok=True)
+                (sd / k).write_text(v, encoding="utf-8")
+            sd.mkdir(parents=True, exist_ok=True)
+            out = base / f"out-gen-{tag}-{target}-{vname}"
+            out.mkdir()
+            group["idx"][vname] = len(cases)
+            cases.append((f"generator-{tag}-{vname}/{target}/aas_core_codegen.main",
+                          ["-m", "aas_core_codegen.main", "--model_path", str(mp), "--snippets_dir",
+                           str(sd), "--output_dir", str(out), "--target", target], str(out)))
+        groups.append(group)
+
+
+def accumulation_models(ctx):
+    """Base model x all pairs (and a few triples) of mutation rules on independent
+    declarations. -> list of {"rules", "combined", "singles", "notes"}"""
+    out = []
+    rules = list(mmg.MUTATIONS)
+    for b in range(ctx.n(1, 6)):
+        mm0 = None
+        for _ in range(50):
+            cand = mmg.random_metamodel(random.Random(ctx.rng.random()), "small")
+            if len(cand.classes) >= 6 and cand.verification_functions:
+                mm0 = cand
+                break
+        if mm0 is None:
+            continue
+        combos = list(itertools.combinations(rules, 2))
+        combos += [tuple(ctx.rng.sample(rules, 3)) for _ in range(ctx.n(8, 40))]
+        for combo in combos:
+            res = repgen.combine(mm0, random.Random(f"{ctx.seed}:{b}:{combo}"), list(combo))
+            if res is None:
+                continue
+            combined, singles, notes = res
+            out.append({"rules": list(combo), "combined": combined, "singles": singles,
+                        "notes": notes, "base": b})
+    return out
+
+
+def frontend_batch(texts, parts=6):
+    """Run the real front end on many texts, in a few parallel fresh processes."""
+    chunks = [texts[i::parts] for i in range(parts)]
+    with concurrent.futures.ThreadPoolExecutor(max_workers=parts) as ex:
+        answers = list(ex.map(lambda ch: lib.impl_call("report.py", {"frontend": ch}, timeout=1700)["frontend"]
+                              if ch else [], chunks))
+    out = [None] * len(texts)
+    for p, ans in enumerate(answers):
+        for j, a in enumerate(ans):
+            out[p + j * parts] = a
+    return out
+
+
+def accumulation_stream(ctx):
+    models = accumulation_models(ctx)
+    texts, index = [], {}
+    for m in models:
+        for t in [m["combined"], *m["singles"].values()]:
+            if t not in index:
+                index[t] = len(texts)
+                texts.append(t)
+    answers = frontend_batch(texts)
+
+    def rep(t):
+        a = answers[index[t]]
+        return None if "exc" in a else report_lines(a["stderr"])
+
+    # Which error lines are reported together (same pass of the front end)? An error is
+    # identified by base model and its line without the location prefix; the lines shared
+    # by all single reports of a combination are wrappers.
+    together = {}
+    observations = []
+    for m in models:
+        comb = rep(m["combined"])
+        sing = {r: rep(t) for r, t in m["singles"].items()}
+        if comb is None or any(v is None for v in sing.values()):
+            continue        # a crash of the front end is C01's business
+        if comb[0] is None or any(v[0] is None for v in sing.values()):
+            continue        # a mutant that is accepted: nothing to compare
+        wrappers = set.intersection(*[v[1] for v in sing.values()])
+        own = {r: {(m["base"], ln) for ln in v[1] - wrappers} if v[0] == comb[0] else set()
+               for r, v in sing.items()}
+        present = {(m["base"], ln) for ln in comb[1]}
+        observations.append((m, comb, sing, own, present))
+        for r, o in itertools.permutations(m["rules"], 2):
+            for x in own[r] & present:
+                for y in own[o] & present:
+                    together.setdefault(x, set()).add(y)
+    n_checked = 0
+    reported = set()
+    for m, comb, sing, own, present in observations:
+        for r, o in itertools.permutations(m["rules"], 2):
+            for x in sorted(own[r] - present):
+                for y in sorted(own[o] & present):
+                    # x was dropped next to y. That is expected only if x belongs to a later
+                    # pass than y; evidence for "same pass": a third error reported together
+                    # with both of them.
+                    if GATING_RE.search(y[1]) and GATED_RE.search(x[1]):
+                        continue
+                    n_checked += 1
+                    common = (together.get(x, set()) & together.get(y, set())) - {x, y}
+                    key = f"independent-error-dropped:{r}-next-to-{o}"
+                    if not common or key in reported:
+                        continue
+                    reported.add(key)
+                    ctx.impl_failure(
+                        key, "an error reported for the single-violation model is missing from the "
+                             "report of the model with both violations, although each of the two is "
+                             "reported together with a third one (so all belong to one pass)",
+                        {"rules": m["rules"], "notes": m["notes"], "combined_model": m["combined"],
+                         "single_model_of_dropped_rule": m["singles"][r]},
+                        {"dropped": x[1], "reported_next_to_it": y[1],
+                         "both_reported_together_with": sorted(c[1] for c in common)[:2],
+                         "combined_report": sorted(comb[1])[:12]},
+                        "accumulation",
+                        "write the model to m.py; PYTHONPATH=<repo> python -m aas_core_codegen.main "
+                        "--model_path m.py --snippets_dir <empty dir> --output_dir out --target jsonschema")
+    n_pairs = sum(1 for m in models if len(m["rules"]) == 2)
+    ctx.count("accumulation", len(texts), nontrivial_keys=[repr(m["rules"]) + str(m["base"]) for m in models],
+              validated=len(texts), combinations=len(models), pairs=n_pairs,
+              reported_together_line_pairs=sum(len(v) for v in together.values()) // 2,
+              drops_examined=n_checked)
+    for m in models[:2]:
+        ctx.sample({"rules": m["rules"], "notes": m["notes"]})
 
 
 def cli_cases(ctx):
@@ -148,10 +366,14 @@ def cli_cases(ctx):
             cases.append((f"golden-enum/{target}/aas_core_codegen.main",
                           ["-m", "aas_core_codegen.main", "--model_path", str(mp), "--snippets_dir",
                            str(snip), "--output_dir", str(out), "--target", target], str(out)))
+    gen_cases, groups = generator_failure_cases(ctx, base)
+    offset = len(cases) + 1
+    for g in groups:
+        g["idx"] = {k: v + offset for k, v in g["idx"].items()}
     cases.append(("missing-model/python/aas_core_codegen.main",
                   ["-m", "aas_core_codegen.main", "--model_path", str(base / "nope.py"), "--snippets_dir",
                    str(empty_snip), "--output_dir", str(base / "o"), "--target", "python"], str(base / "o")))
-    return cases
+    return cases + gen_cases, groups
 
 
 def streams(ctx: lib.Ctx) -> None:
@@ -162,7 +384,7 @@ def streams(ctx: lib.Ctx) -> None:
     errors = [["m", None], ["m", [["u", None]]], ["m", [["a\nb", [["c", []]]], [" ", None]]]]
     for _ in range(ctx.n(300, 4000)):
         errors.append(nested(ctx.rng))
-    cli = cli_cases(ctx)
+    cli, groups = cli_cases(ctx)
     ans = lib.impl_call("report.py", {"reports": reports, "errors": errors,
                                       "cli": [argv for _, argv, _ in cli]}, timeout=1700)
 
@@ -211,7 +433,7 @@ def streams(ctx: lib.Ctx) -> None:
         elif res["rc"] != 0 and "Traceback (most recent call last)" in res["stderr"]:
             key = None      # crashes are C01/C02
         elif res["rc"] != 0:
-            fail = layout_fails(res["stderr"])
+            fail = layout_fails(res["stderr"], cli=True)
             key = fail
         if key and key not in seen:
             seen.add(key)
@@ -219,6 +441,50 @@ def streams(ctx: lib.Ctx) -> None:
                              {k: v[-1500:] if isinstance(v, str) else v for k, v in res.items()},
                              "cli", f"PYTHONPATH={lib.REPO} {lib.PY} " + " ".join(argv))
         ctx.sample({"cli": label, "rc": res["rc"], "stderr_head": res["stderr"][:120]})
+    # failures inside the generators: a known number of injected problems
+    for g in groups:
+        runs = {k: ans["cli"][i] for k, i in g["idx"].items()}
+        t = g["target"]
+
+        def fail(key, what, vname):
+            if key not in seen:
+                seen.add(key)
+                label, argv, _ = cli[g["idx"][vname]]
+                r = runs[vname]
+                ctx.impl_failure(key, f"{what} ({label}; removed snippets {g['removed']})", {"argv": argv},
+                                 {k: v[-1500:] if isinstance(v, str) else v for k, v in r.items()},
+                                 "cli", f"PYTHONPATH={lib.REPO} {lib.PY} " + " ".join(argv))
+        if "Traceback (most recent call last)" in "".join(r["stderr"] for r in runs.values()):
+            continue
+        if runs["full"]["rc"] != 0:
+            continue        # the generated model is not accepted by this generator: C02's business
+        reps = {k: report_lines(r["stderr"]) for k, r in runs.items()}
+        for vname in ("minus1", "minus2", "minus12"):
+            if vname not in runs:
+                continue
+            if runs[vname]["rc"] == 0:
+                continue    # harness/gen synthesises a superset of the required snippets
+            elif runs[vname]["stderr"].count("\n") > 1 and reps[vname][2] < 1:
+                fail("report-without-entries", "report without any bullet", vname)
+        if "minus12" in runs and runs["minus12"]["rc"] != 0:
+            failing = [v for v in ("minus1", "minus2") if runs[v]["rc"] != 0]
+            kept = [v for v in failing if reps[v][0] == reps["minus12"][0] and reps[v][1] <= reps["minus12"][1]]
+            same_head = [v for v in failing if reps[v][0] == reps["minus12"][0]]
+            if same_head and not kept:
+                # whatever the order of the generator's steps, the problem it stops at is
+                # one of the two injected ones
+                fail(f"generator-error-dropped:{t}",
+                     "none of the entries reported with one snippet missing is reported with both missing",
+                     "minus12")
+            elif g["same_kind"] and len(same_head) == 2 and len(kept) < 2 \
+                    and reps["minus1"][1] != reps["minus2"][1]:
+                # two snippets of the same kind (same sub-directory) are looked up by the
+                # same generation step: both problems are reported together
+                fail(f"generator-error-dropped:{t}",
+                     "two missing snippets of the same kind, but only one of the two entries is reported",
+                     "minus12")
     ctx.count("cli", len(cli), nontrivial_keys=[c[0] for c in cli], validated=len(cli),
               rc_zero=sum(1 for r in ans["cli"] if r["rc"] == 0))
     shutil.rmtree(ctx.work / "cli", ignore_errors=True)
+
+    accumulation_stream(ctx)
